@@ -114,3 +114,15 @@ Theorem C12_ids_meet_monitor :
   idcase_spec {| ic_stream := s; ic_n := Z.of_nat k; ic_ids := ids |} = true.
 Proof. exact make_ids_meets_spec. Qed.
 Print Assumptions C12_ids_meet_monitor.
+
+(* for any DEFLATE/base64 implementation with the round-trip property, the single
+   SAMLRequest parameter of the emitted URL decodes to the serialised message *)
+Theorem C12_message_recoverable :
+  forall (deflate inflate b64enc b64dec : string -> string),
+  (forall x, inflate (deflate x) = x) -> (forall x, b64dec (b64enc x) = x) ->
+  forall sign dest xml relay method kt url octets,
+  authn_redirect sign dest (b64enc (deflate xml)) relay method kt = Ok (url, octets) ->
+  has_saml_key (fst (parse_query (snd (fst (split_url dest))))) = false ->
+  map (fun v => inflate (b64dec v)) (values_of "SAMLRequest" (fst (parse_query (query_of url)))) = [xml].
+Proof. exact redirect_message_recoverable. Qed.
+Print Assumptions C12_message_recoverable.
